@@ -6,9 +6,9 @@ CONSTANTS
   Min = 0
   MaxSusp = 1
   MaxOps = 7
-  Waiters = {1, 2}
+  Waiters = {1}
   KeepAlive = FALSE
-  Deviations = {}
+  Deviations = {"drop_undoes_cancel"}
 VIEW view
 INVARIANTS NoViolation CounterExact CounterBounded DrainsToMin RejectAfterStop NoCollateral
 PROPERTIES Monotone CancelledNeverRuns NoCollateralDrop
